@@ -61,20 +61,20 @@ Qed.
 (* instance: the executable model of the whole core conversion (block pass, reference table, inline pass; Model/Doc.v,
    tied to create_markdown(renderer=None) by the AST correspondence run) is of the form G o parse_src, so the AST it
    produces does not depend on the line-ending style *)
-Definition core_G (hw : bool) (t : str) : res (list node) :=
-  match block_cfg, inline_cfg hw [] with
-  | Some CB, Some d => doc_parse CB (fun rf => inline_cfg_or hw rf d) (fun x => x) t
+Definition core_G (px hw : bool) (t : str) : res (list node) :=
+  match block_cfg, inline_cfg_x px hw [] with
+  | Some CB, Some d => doc_parse CB (fun rf => inline_cfg_or px hw rf d) (fun x => x) t
   | _, _ => Exn
   end.
 
-Lemma core_doc_parse_is_G : forall hw s, core_doc_parse hw s = core_G hw (parse_src s).
-Proof. intros hw s. unfold core_doc_parse, core_G, parse_src. destruct block_cfg; [|reflexivity]. destruct (inline_cfg hw []); reflexivity. Qed.
+Lemma core_doc_parse_is_G : forall px hw s, doc_parse_x px hw s = core_G px hw (parse_src s).
+Proof. intros px hw s. unfold doc_parse_x, core_G, parse_src. destruct block_cfg; [|reflexivity]. destruct (inline_cfg_x px hw []); reflexivity. Qed.
 
-Theorem C16_core_ast_ending_invariant : forall hw d,
-  lines_ok d -> unambiguous d -> d <> [] -> core_doc_parse hw (show d) = core_doc_parse hw (show (to_LF d)).
+Theorem C16_core_ast_ending_invariant : forall px hw d,
+  lines_ok d -> unambiguous d -> d <> [] -> doc_parse_x px hw (show d) = doc_parse_x px hw (show (to_LF d)).
 Proof.
-  intros hw d H1 H2 H3. rewrite !core_doc_parse_is_G.
-  exact (C16_ending_invariance (res (list node)) (core_G hw) d H1 H2 H3).
+  intros px hw d H1 H2 H3. rewrite !core_doc_parse_is_G.
+  exact (C16_ending_invariance (res (list node)) (core_G px hw) d H1 H2 H3).
 Qed.
 
 Print Assumptions C16_ending_invariance.
